@@ -102,6 +102,12 @@ def _detect_compressor(fileobj):
         # Peek allows to read those bytes without moving the cursor in the
         # file which.
         first_bytes = fileobj.peek(max_prefix_len)
+        if len(first_bytes) < max_prefix_len and fileobj.seekable():
+            # peek only promises what is left in the read buffer, which can
+            # be shorter than the magic number: read it and come back.
+            position = fileobj.tell()
+            first_bytes = fileobj.read(max_prefix_len)
+            fileobj.seek(position)
     else:
         # Fallback to seek if the fileobject is not peekable.
         first_bytes = fileobj.read(max_prefix_len)
